@@ -1,10 +1,11 @@
 """C20 — event stream subscribers get every event once, in publish order (E3 on internal/queue + subscriber, E2 on EventsStream)."""
 ID = "C20"
 # MODE is the variant of internal/queue/queue.go the E3 cases are generated for:
-#   "pooled" = the code as it is (nodes recycled through sync.Pool; finding C20-F1)
-#   "fresh"  = after fixes/C20-queue-no-node-recycling.diff (then C20_queue_fixed_linearizable is the tied theorem)
+#   "fresh"  = the code as it is since fix c76ec1e (nodes are never recycled, Length never negative)
+#   "pooled" = the code before that fix (nodes recycled through sync.Pool; kept in the model for the refutation
+#              theorem and for the seeded revert, VERIF_C20_MODE=pooled ties it to a tree with the fix reverted)
 import os
-MODE = os.environ.get("VERIF_C20_MODE", "pooled")
+MODE = os.environ.get("VERIF_C20_MODE", "fresh")
 LEAN_MODULES = ["GoaktVerif.Props.C20"]
 THEOREMS = [
     "GoaktVerif.C20.stream_refines",
@@ -14,8 +15,8 @@ THEOREMS = [
     "GoaktVerif.C20.C20_refuted",
 ]
 MANIFEST = {
-    "level_text": "Kernel-checked: (1) C20_refuted — the subscriber queue (Michael-Scott queue with nodes recycled through sync.Pool) does NOT refine a FIFO: explicit 17-step schedule of signal(1) || signal(2) || Iterator() after which every call has returned, event 1 is neither delivered nor in the queue and Length() stays 1 (decide on the small-step model; the same schedule is replayed on the REAL queue by the controlled scheduler on every run and loses the event there too); (2) C20_stream_holds — for EVERY sequence of AddSubscriber/Subscribe/Unsubscribe/RemoveSubscriber/Publish/Broadcast/Iterator/Shutdown/Close the stream model returns to each Iterator() exactly the messages published since the previous call while that subscriber was subscribed and active, in publish order, once (simulation to a per-subscriber specification, induction over the sequence). Both models are tied to the code on every run: the queue+subscriber model step-for-step (same atomic-operation labels from yieldinject, same results, same final heap digest) under random controlled schedules with a deterministic stand-in for sync.Pool, the stream model by a sequential differential.",
-    "level_note": "Partial: the queue layer is refuted for the current code (findings C20-F1 lost/reordered events with two publishers, C20-F2 Iterator panic with two drainers); the all-schedules linearizability theorem for the repaired queue (fixes/C20-queue-no-node-recycling.diff, model Mode.fresh, already tied to the patched code in the self-test) is the partial theorem. Publish/Subscribe racing each other are mutex-protected in eventstream.go and modelled sequentially only. Trusted: sync/atomic is sequentially consistent; plain accesses between two atomic sites execute with the preceding site; GOMAXPROCS(1)+Settle makes sync.Pool observable (harness/inpkg/internal/queue/zz_verif_c20.go).",
+    "level_text": "Kernel-checked: (1) C20_stream_holds - for EVERY sequence of AddSubscriber/Subscribe/Unsubscribe/RemoveSubscriber/Publish/Broadcast/Iterator/Shutdown/Close the stream model returns to each Iterator() exactly the messages published since the previous call while that subscriber was subscribed and active, in publish order, once (simulation to a per-subscriber specification, induction over the sequence); (2) C20_queue_refuted - the subscriber queue as it was before fix c76ec1e (Michael-Scott queue with nodes recycled through sync.Pool) does NOT refine a FIFO: explicit 17-step schedule of signal(1) || signal(2) || Iterator() after which every call has returned, event 1 is neither delivered nor in the queue and Length() stays 1 (decide on the small-step model; replayed on the real pre-fix queue by the seeded revert). Both models are tied to the code on every run: the queue+subscriber model (Mode.fresh = the code since c76ec1e) step-for-step (same atomic-operation labels from yieldinject, same results, same final heap digest) under random controlled schedules, the stream model by a sequential differential; the outcome oracle (exactly once, per-publisher order, no Iterator panic, Length 0 after drain) is evaluated on the implementation's output.",
+    "level_note": "The all-schedules FIFO-refinement theorem for the repaired queue (Mode.fresh) is stated (QueueRefinesFifo .fresh) and its proof (inductive invariant: one chain of linked nodes, owned unlinked nodes, ghost linearization log) is in progress in Lemmas/C20Queue*.lean; until it is listed in THEOREMS the queue layer of the current code is covered by the tie + oracle only. Publish/Subscribe racing each other are mutex-protected in eventstream.go and modelled sequentially only. Trusted: sync/atomic is sequentially consistent; plain accesses between two atomic sites execute with the preceding site.",
     "technique": "Lean 4 small-step model at atomic-operation granularity replayed against the real code under controlled schedules (yield injection), refutation by kernel evaluation of a concrete schedule, simulation proof for the sequential stream layer",
 }
 TRUSTED = [
@@ -277,15 +278,10 @@ def _shape(case):
 
 
 def classify(case, impl, why):
-    """exact failure families of the two recorded findings (see findings/C20.json `signature`)"""
-    if not why or not case.startswith("q ") or not why.startswith("bad "):
-        return None
-    kind = (why.split() + ["", ""])[1]
-    prods, cons, rawd = _shape(case)
-    if kind == "panic":
-        return "C20-F2" if (cons >= 2 or rawd) else None
-    if kind in ("lost", "dup", "order", "invented", "len") and case.startswith("q pooled") and (prods >= 2 or cons >= 2):
-        return "C20-F1"
+    """No open finding (C20-F1 / C20-F2 were fixed by c76ec1e): every oracle failure is a violation. The class
+    returned here only keeps the shrinker on the same kind of PROPERTY failure (it is never a known-finding id)."""
+    if why and why.startswith("bad ") and len(why.split()) > 1:
+        return "unlisted:" + why.split()[1]
     return None
 
 
